@@ -67,6 +67,9 @@ SEEDS = {
  'C18b-2': ('C18', 'C18b/mut2.diff', 'C18b/demo_mut2.rs', 'MultiPattern::parse skips a non-variable child: ?x == (f ?a zero) accepted with one child on a binary node'),
  'C19b-1': ('C19', 'C19b/mut1.diff', 'C19b/demo_mut1.rs', 'SlotMap::remove of an absent key deletes the entry with the next larger key'),
  'C19b-2': ('C19', 'C19b/mut2.diff', 'C19b/demo_mut2.rs', 'SlotMap::union skips pairs whose value is already a key: slot sharing between the two sides, e.g. {0->1,1->2} u {2->0}'),
+ 'C03-1': ('C03', 'C03/mut1.diff', 'C03/demo_mut1.rs', 'pc_find only find-normalises the node (same site as C01-2): a child class becomes symmetric by add-comm, two parents differ only in its argument order and mention a permuted slot again'),
+ 'C03-2': ('C03', 'C03/mut2.diff', 'C03/demo_mut2.rs', 'SynExprSubst::subst without synify_app_id: b[x := t] panics once the body class has lost a parameter slot (second iteration)'),
+ 'C03b-2': ('C03', 'C03b/mut2.diff', 'C03b/demo_mut2.rs', 'pattern_subst takes the substitution method before instantiating b, x, t: a right side with two nested substitutions panics (unwrap on None)'),
  'C16-2': ('C16', 'C16/mut2.diff', 'C16/demo_mut2.rs', 'Bind::public_slot_occurrences_iter leaks inner binders: nested Bind<Bind<T>>'),
 }
 def main():
